@@ -189,6 +189,31 @@ def gen_percent():
     out.append(t_func(R, "Report.quality_profile_percentage", "quality_profile_percentage",
                       [("self_quality_profile", "list Z")], "Z * Z * Z * Z",
                       aliases={"self.quality_profile()": "self_quality_profile"}))
+    # the same function with the three float computations `ceil(share * 100 - 0.001)` taken as INPUTS (what the
+    # floating-point evaluation of each may return is constrained separately, see Agg/Percent.v), and the exact
+    # rational value of each of those three expressions
+    fn = find_func(parse(R), "Report.quality_profile_percentage")
+    ceils = sorted([n for n in ast.walk(fn) if isinstance(n, ast.Call) and isinstance(n.func, ast.Name) and n.func.id == "ceil"
+                    and len(n.args) == 1], key=lambda n: (n.lineno, n.col_offset))
+    idx = {}
+    for n in ceils:
+        subs = [x for x in ast.walk(n) if isinstance(x, ast.Subscript) and ast.unparse(x.value) == "profile"
+                and isinstance(x.slice, ast.Constant)]
+        if len(subs) != 1:
+            raise Unsupported("ceil argument does not mention exactly one profile entry: " + ast.unparse(n))
+        idx[subs[0].slice.value] = n
+    if sorted(idx) != [1, 2, 3]:
+        raise Unsupported("expected one ceil(...) per profile entry 1, 2, 3")
+    names = {1: "c_verbose", 2: "c_hard", 3: "c_unm"}
+    out.append(t_func(R, "Report.quality_profile_percentage", "quality_profile_adjust",
+                      [("self_quality_profile", "list Z"), ("c_verbose", "Z"), ("c_hard", "Z"), ("c_unm", "Z")], "Z * Z * Z * Z",
+                      aliases=dict({"self.quality_profile()": "self_quality_profile"},
+                                   **{ast.unparse(n): names[i] for i, n in idx.items()})))
+    for i, n in sorted(idx.items()):
+        tr = FuncTr(aliases={"total": "total"})
+        num, den = tr.rat(n.args[0])
+        out.append(f"Definition share_expr_num_{i} (profile : list Z) (total : Z) : Z :=\n{num}.\n")
+        out.append(f"Definition share_expr_den_{i} (profile : list Z) (total : Z) : Z :=\n{den}.\n")
     for rel, qual, nm in (("codelimit/common/report/format_text.py", "print_summary", "text"),
                           ("codelimit/common/report/format_markdown.py", "print_summary", "md")):
         out.append(t_expr(rel, qual, f"verdict_unm_{nm}", [("unmaintainable", "Z")], "bool", if_test(0), cond=True))
